@@ -1,6 +1,6 @@
 (** Proofs about the stream-framing model (Stream.v). *)
 From Coq Require Import ZArith List Bool Lia.
-From KV Require Import Base Stream.
+From KV Require Import Base BaseProofs Stream.
 Import ListNotations.
 Open Scope Z_scope.
 
@@ -100,13 +100,7 @@ Proof.
 Qed.
 
 Lemma unbe_be4 l : 0 <= l < 2 ^ 32 -> unbe (be 4 l) = l.
-Proof.
-  intros H. unfold unbe, be. cbn [fold_left].
-  change (256 ^ Z.of_nat 3) with 16777216. change (256 ^ Z.of_nat 2) with 65536.
-  change (256 ^ Z.of_nat 1) with 256. change (256 ^ Z.of_nat 0) with 1.
-  change (2 ^ 32) with 4294967296 in H.
-  Z.div_mod_to_equations. lia.
-Qed.
+Proof. intros H. apply BaseProofs.unbe_be_id. change (256 ^ Z.of_nat 4) with (2 ^ 32). exact H. Qed.
 
 Lemma be4_length l : length (be 4 l) = 4%nat.
 Proof. reflexivity. Qed.
@@ -122,7 +116,7 @@ Proof.
   intros HW Ht Hl. unfold needed_bytes, hdr_need, rd_padded_len, rd_len.
   destruct tag as [|t0 [|t1 [|t2 [|? ?]]]]; try discriminate Ht.
   set (b := be 4 l).
-  assert (Hb : exists b0 b1 b2 b3, b = [b0; b1; b2; b3]) by (unfold b, be; eauto).
+  assert (Hb : exists b0 b1 b2 b3, b = [b0; b1; b2; b3]) by (unfold b, be; cbn [be_go]; eauto).
   destruct Hb as (b0 & b1 & b2 & b3 & Hb).
   assert (Hu : unbe [b0; b1; b2; b3] = l) by (rewrite <- Hb; apply unbe_be4; exact Hl).
   rewrite Hb. cbn [app].
